@@ -341,6 +341,9 @@ class LibHarness(Harness):
                     ctx.law('C04.incremental-equals-fresh:node_at_line', a == b, dict(info, observation='node_at_line:' + k, incremental=a, fresh=b, step=step))
                     return (a, b)
                 ctx.forall(lookup)
+            # ---- C12: ids answered by the reference index are live nodes (handlers call node_key / line ranges on them unguarded)
+            dead = sorted(str(x) for n_ in oi for x in (oi[n_] if n_.startswith(('block_refs_to', 'inline_refs_to')) else []) if x[0] in ('dead', 'orphan'))
+            ctx.law('C12.reference-ids-answered-are-live-nodes', not dead, dict(info, dead=dead[:4], step=step))
             # ---- C20 / H20b: preserve step
             bad = check_ri(nodes_i, keys_i)
             ctx.law('C20.RI-preserved-by-update', not bad, dict(info, problems=bad[:5], step=step))
@@ -493,6 +496,10 @@ class LibHarness(Harness):
         if law == 'C18.paths-after-edit-equal-fresh-start':
             v['replay_verdict'] = 'native incremental vs fresh differ on: %s' % diffs
             return 'paths' in diffs
+        if law.startswith('C12.'):
+            dead = [x for n_ in oi for x in (oi[n_] if n_.startswith(('block_refs_to', 'inline_refs_to')) else []) if x[0] in ('dead', 'orphan')]
+            v['replay_verdict'] = 'native index answers dead ids: %s' % dead[:3]
+            return bool(dead)
         if law.startswith('C06.'):
             v['replay_verdict'] = 'native incremental vs fresh differ on: %s' % diffs
             return any(k.startswith('tree:') or k.startswith('title:') for k in diffs)
